@@ -34,6 +34,7 @@ type JobSpec struct {
 	MaxPaths   int                         `json:"max_paths"`
 	Trace      bool                        `json:"trace_mode"`
 	NoValidate bool                        `json:"no_validate"`
+	Kinds      []string                    `json:"kinds"` // violation kinds that belong to this property (empty: all)
 }
 
 type PropConfig struct {
@@ -298,6 +299,18 @@ func cmdCheck(args []string) int {
 			// vacuity: required labels reached (per entry, summed over splits below)
 			for vi := range r.Violations {
 				v := r.Violations[vi]
+				if len(j.spec.Kinds) > 0 {
+					mine := false
+					for _, k := range j.spec.Kinds {
+						if k == v.Kind {
+							mine = true
+						}
+					}
+					if !mine {
+						ev.Notes[fmt.Sprintf("violation of kind %q at %s belongs to another property's check and is not reported here", v.Kind, v.Site)]++
+						continue
+					}
+				}
 				matched := false
 				for fi := range ff.Findings {
 					if ff.Findings[fi].matches(id, &v) {
